@@ -1,0 +1,93 @@
+// Copyright 2015, Joe Tsai. All rights reserved.
+// Use of this source code is governed by a BSD-style
+// license that can be found in the LICENSE.md file.
+
+//go:build verif
+// +build verif
+
+// This file exists to export internal implementation details to the
+// verification harness. It adds no behaviour and is compiled only with the
+// "verif" build tag.
+
+package bzip2
+
+import "github.com/dsnet/compress/internal/errors"
+
+// VerifRLE1Encode runs runLengthEncoding.Write over in with a block buffer of
+// the given capacity; it returns the encoded bytes and the number of input
+// bytes consumed before the block was full.
+func VerifRLE1Encode(capacity int, in []byte) (out []byte, consumed int) {
+	var rle runLengthEncoding
+	rle.Init(make([]byte, capacity))
+	n, _ := rle.Write(in)
+	return append([]byte(nil), rle.Bytes()...), n
+}
+
+// VerifRLE1Decode runs runLengthEncoding.Read with the given sequence of buffer
+// sizes; for every call it returns the bytes delivered and a status
+// ("ok", "done", "corrupt").
+func VerifRLE1Decode(in []byte, sched []int) (outs [][]byte, status []string) {
+	var rle runLengthEncoding
+	rle.Init(append([]byte(nil), in...))
+	for _, n := range sched {
+		buf := make([]byte, n)
+		k, err := rle.Read(buf)
+		st := "ok"
+		switch {
+		case err == rleDone:
+			st = "done"
+		case err != nil:
+			st = "corrupt"
+		}
+		outs = append(outs, buf[:k])
+		status = append(status, st)
+		if err != nil {
+			break
+		}
+	}
+	return outs, status
+}
+
+// VerifMTFEncode runs moveToFront.Encode.
+func VerifMTFEncode(dict []byte, vals []byte) []uint16 {
+	var mtf moveToFront
+	mtf.Init(dict, len(vals))
+	return append([]uint16(nil), mtf.Encode(append([]byte(nil), vals...))...)
+}
+
+// VerifMTFDecode runs moveToFront.Decode; ok=false means it reported corruption.
+func VerifMTFDecode(dict []byte, syms []uint16, blkSize int) (vals []byte, ok bool) {
+	var err error
+	func() {
+		defer errors.Recover(&err)
+		var mtf moveToFront
+		mtf.Init(dict, blkSize)
+		vals = append([]byte(nil), mtf.Decode(syms)...)
+	}()
+	return vals, err == nil
+}
+
+// VerifBWTEncode runs burrowsWheelerTransform.Encode on a copy of buf.
+func VerifBWTEncode(buf []byte) ([]byte, int) {
+	var bwt burrowsWheelerTransform
+	b := append([]byte(nil), buf...)
+	ptr := bwt.Encode(b)
+	return b, ptr
+}
+
+// VerifBWTDecode runs burrowsWheelerTransform.Decode on a copy of buf.
+func VerifBWTDecode(buf []byte, ptr int) []byte {
+	var bwt burrowsWheelerTransform
+	b := append([]byte(nil), buf...)
+	bwt.Decode(b, ptr)
+	return b
+}
+
+// VerifCRC runs crc.update over the chunks in order and returns crc.val.
+func VerifCRC(chunks ...[]byte) uint32 {
+	var c crc
+	for _, b := range chunks {
+		c.update(b)
+	}
+	return c.val
+}
